@@ -41,6 +41,8 @@
 //!   fresh: 0 no callback, 1 always false, 2 always true, 3 alternate starting true, 4 alternate starting false,
 //!          5 first poll panics, 6 first poll true, second poll panics
 //!   oncb:  0 no callback, 1 callback, 2 its first invocation panics, 3 its second invocation panics
+//! Environment: MJVERIF_WATCHDOG_S (hand-over watchdog, default 20 s, multiplied by the 1-minute load average per cpu),
+//!   MJVERIF_DEADLINE_EPOCH (wall-clock budget: enumerations stop there and report `truncated`).
 //! Run line: `R <mode-0 case with the full schedule> | fast fresh oncb nev (tid point a g v w)* | loads oncb_calls status`
 //!   status 0 ok, 3 schedule names a thread that is not enabled.  Deadlock / hang: line `HANG ...` and exit 3.
 use minijinja::{Environment, Error, ErrorKind};
